@@ -5,7 +5,7 @@
 // into runs of T tests over one private TestRegistry, and trailing chain operations. Runs go through
 // TestRegistry::runAllTests directly or (section command_line_runner_programs) through
 // CommandLineTestRunner::runAllTestsMain, which installs its own SetPointerPlugin and removes it by name.
-// Sections: remove_by_name_enumerated, limit_enumerated (both complete), pointer_programs, chain_programs,
+// Sections: remove_by_name_enumerated, limit_enumerated, failing_actions_enumerated (all three complete), pointer_programs, chain_programs,
 // command_line_runner_programs (random). Build variants: asan (exceptions) and asan-noexc (longjmp only).
 //
 // Oracles (all independent of the implementation):
@@ -17,6 +17,12 @@
 //     enabled flags; expected pre order = list order over enabled plugins, post = exact reverse;
 //     structure (getFirstPlugin/getNext walk, countPlugins, isEnabled) compared after every operation,
 //     behaviour (order log written by the plugins) compared after every test
+//   * plugin actions with an effect on the test's result: in some executions recording plugins report a failure
+//     for the test from their pre and/or post action (TestResult::addFailure, what MemoryLeakWarningPlugin /
+//     MockSupportPlugin do in their post actions); the expected order is unchanged - every installed, enabled plugin
+//     still sees the pre action and the mirrored post action (section failing_actions_enumerated: chains of 1..5 x
+//     enabled mask x complaining position x pre/post/both/two failures x test ending; sprinkled over the random sections).
+//     Failures added by plugin actions are counted by the harness and subtracted before the limit / spurious-failure oracles.
 #include "verif.h"
 #include <memory>
 #include <stdexcept>
@@ -139,6 +145,8 @@ struct Script {
     int8_t baseline[NT];                 // value index written to the target before the test starts (-1: keep)
     int premut_plugin = -1;              // this recording plugin rewrites one target in its pre action (still "before the first redirection")
     int premut_target = 0, premut_value = 0;
+    uint32_t pre_fail = 0, post_fail = 0; // bit i: recording plugin i reports a failure for the test (result.addFailure) in its pre / post action
+    int complaints = 1;                  // failures added per complaining action
     Script() { for (int i = 0; i < NT; i++) baseline[i] = -1; }
     size_t nsets() const { size_t n = 0; for (int p = 0; p < 3; p++) for (const Op& o : ph[p]) n += o.kind == OP_SET; return n; }
 };
@@ -201,6 +209,10 @@ static std::string script_json(const Script& s) {
     for (int t = 0; t < NT; t++) { if (t) b += ","; b += std::to_string((int) s.baseline[t]); }
     j.raw("baseline", "[" + b + "]");
     if (s.premut_plugin >= 0) j.raw("pre_action_rewrites", vf::J().k("plugin", s.premut_plugin).k("target", s.premut_target).k("value", s.premut_value).str());
+    if (s.pre_fail | s.post_fail) {
+        auto bits = [](uint32_t m) { std::string x; for (int i = 0; i < 32; i++) if (m >> i & 1) { if (!x.empty()) x += ","; x += std::to_string(i); } return x; };
+        j.raw("plugin_actions_reporting_a_failure", vf::J().k("pre_action_of_plugins", bits(s.pre_fail)).k("post_action_of_plugins", bits(s.post_fail)).k("failures_each", s.complaints).str());
+    }
     for (int p = 0; p < 3; p++) {
         std::string a;
         for (const Op& o : s.ph[p]) {
@@ -244,6 +256,8 @@ struct ExecRec {
     bool snapshot_taken;
     void* before[NT];
     int teardown_entered;
+    int plugin_failures;                 // failures added to the TestResult by plugin actions of this execution (not by the test)
+    int pre_complaints, post_complaints; // plugin actions that reported a failure
 };
 
 class ScriptShell;
@@ -324,24 +338,41 @@ static int shell_id(UtestShell& t) {
 }
 
 // ================================================================ recording plugins
-static void plugin_pre(int idx, UtestShell& t) {
+// a plugin action that reports a failure for the test, the way the stock plugins do it (TestResult::addFailure with a TestFailure naming the test)
+static void plugin_complain(int idx, UtestShell& t, TestResult& r, bool pre) {
+    Run& g = *g_run;
+    if (!g.script || g.abandoned) return;
+    uint32_t m = pre ? g.script->pre_fail : g.script->post_fail;
+    if (idx < 0 || idx >= 32 || !(m >> idx & 1)) return;
+    for (int k = 0; k < g.script->complaints; k++) {
+        g.E.plugin_failures++;
+        r.addFailure(TestFailure(&t, pre ? "c17: pre action of a plugin reports a failure" : "c17: post action of a plugin reports a failure"));
+    }
+    if (pre) g.E.pre_complaints++; else g.E.post_complaints++;
+}
+static void plugin_pre(int idx, UtestShell& t, TestResult& r) {
     Run& g = *g_run;
     logev(L_PRE, idx, shell_id(t));
     if (g.script && g.script->premut_plugin == idx) wr(g.script->premut_target, POOL[g.script->premut_target][g.script->premut_value]);
+    plugin_complain(idx, t, r, true);
+}
+static void plugin_post(int idx, UtestShell& t, TestResult& r) {
+    logev(L_POST, idx, shell_id(t));
+    plugin_complain(idx, t, r, false);
 }
 class RecPlugin : public TestPlugin {
 public:
     int idx;
     RecPlugin(const SimpleString& name, int i) : TestPlugin(name), idx(i) {}
-    virtual void preTestAction(UtestShell& t, TestResult&) CPPUTEST_OVERRIDE { plugin_pre(idx, t); }
-    virtual void postTestAction(UtestShell& t, TestResult&) CPPUTEST_OVERRIDE { logev(L_POST, idx, shell_id(t)); }
+    virtual void preTestAction(UtestShell& t, TestResult& r) CPPUTEST_OVERRIDE { plugin_pre(idx, t, r); }
+    virtual void postTestAction(UtestShell& t, TestResult& r) CPPUTEST_OVERRIDE { plugin_post(idx, t, r); }
 };
 class RecSPP : public SetPointerPlugin {
 public:
     int idx;
     RecSPP(const SimpleString& name, int i) : SetPointerPlugin(name), idx(i) {}
-    virtual void preTestAction(UtestShell& t, TestResult&) CPPUTEST_OVERRIDE { plugin_pre(idx, t); }
-    virtual void postTestAction(UtestShell& t, TestResult& r) CPPUTEST_OVERRIDE { logev(L_POST, idx, shell_id(t)); SetPointerPlugin::postTestAction(t, r); }
+    virtual void preTestAction(UtestShell& t, TestResult& r) CPPUTEST_OVERRIDE { plugin_pre(idx, t, r); }
+    virtual void postTestAction(UtestShell& t, TestResult& r) CPPUTEST_OVERRIDE { plugin_post(idx, t, r); SetPointerPlugin::postTestAction(t, r); }
 };
 
 // ================================================================ structural check after a chain operation
@@ -447,7 +478,14 @@ static void judge_order(Run& g, const char* which, const std::vector<int>& act, 
     for (int a : act) if (M.pos(a) < 0) { key = std::string("called-while-not-installed:") + which; break; }
     if (key.empty()) for (int a : act) if (!M.enabled[a]) { key = std::string("disabled-plugin-called:") + which; break; }
     if (key.empty()) for (size_t i = 0; i < act.size(); i++) if (std::count(act.begin(), act.end(), act[i]) > 1) { key = std::string("plugin-called-twice:") + which; break; }
-    if (key.empty()) for (int e : exp) if (!has(act, e)) { key = std::string("enabled-plugin-skipped:") + which; break; }
+    if (key.empty()) for (int e : exp) if (!has(act, e)) {
+        key = std::string("enabled-plugin-skipped:") + which;
+        // a different history shape (and defect class): the chain walk reacted to a failure that a plugin action reported
+        bool is_pre = std::string(which) == "pre";
+        if (!is_pre && g.E.post_complaints) key += ":after-a-post-action-reported-a-failure";
+        else if (g.E.pre_complaints) key += ":after-a-pre-action-reported-a-failure";
+        break;
+    }
     if (key.empty()) key = std::string(which) == "pre" ? "order:pre-not-installation-reversed" : "order:post-not-reverse-of-pre";
     auto lst = [&](const std::vector<int>& v) { std::string s; for (int x : v) { s += (x >= 0 && x < (int) g.P->U.size()) ? g.P->U[x].name : "?"; s += " "; } return s; };
     c.violation(key, ctx + "; " + which + " actions expected [" + lst(exp) + "] observed [" + lst(act) + "]");
@@ -498,10 +536,12 @@ static void on_test_end() {
     const Program& P = *g.P;
     ExecRec& E = g.E;
     const Script& S = *g.script;
-    size_t fails = g.failures - g.failures_before;
+    size_t fails_all = g.failures - g.failures_before;
+    size_t fails = fails_all >= (size_t) E.plugin_failures ? fails_all - (size_t) E.plugin_failures : 0;     // failures reported by the test itself
     const char* ending = E.terminators == 0 ? (E.attempted > LIMIT ? "limit-fail" : "pass") : ENDCLASS[E.last_term_kind];
     std::string ctx = "execution " + std::to_string(g.exec) + " (test t" + std::to_string(g.cur_test_id) + "), chain " + g.M_at_test.str(P) + ", UT_PTR_SETs attempted " + std::to_string(E.attempted) +
-                      " completed " + std::to_string(E.completed) + ", ending " + ending + ", failures counted " + std::to_string(fails);
+                      " completed " + std::to_string(E.completed) + ", ending " + ending + ", failures counted " + std::to_string(fails) +
+                      (E.plugin_failures ? " (+" + std::to_string(E.plugin_failures) + " reported by " + std::to_string(E.pre_complaints) + " pre / " + std::to_string(E.post_complaints) + " post actions of plugins)" : "");
     c.count("tests_executed");
     c.count(std::string("tests_ending_") + ending);
     if (E.terminators > 1) c.count("tests_with_two_failing_phases");
@@ -564,6 +604,24 @@ static void on_test_end() {
     size_t disabled = 0;
     for (int p : g.M_at_test.chain) if (!g.M_at_test.enabled[p]) disabled++;
     c.count("disabled_installed_plugins_during_tests", disabled);
+    // ---------------- evidence: plugin actions that reported a failure for this test, and what was still due after them
+    if (E.pre_complaints || E.post_complaints) {
+        c.count("tests_with_a_plugin_action_reporting_a_failure");
+        c.count("failures_reported_by_plugin_actions", (uint64_t) E.plugin_failures);
+        c.count("pre_actions_reporting_a_failure", (uint64_t) E.pre_complaints);
+        c.count("post_actions_reporting_a_failure", (uint64_t) E.post_complaints);
+        if (E.terminators == 0 && E.attempted <= LIMIT) c.count("tests_passing_by_themselves_but_failed_by_a_plugin_action");
+        if (E.completed > 0) c.count("tests_redirecting_pointers_with_a_plugin_action_reporting_a_failure");
+        bool deep = false;
+        for (size_t i = 0; i < g.exp_pre.size(); i++) {
+            int p = g.exp_pre[i];
+            size_t behind = g.exp_pre.size() - 1 - i, infront = i;      // enabled recording plugins whose pre (post) action is due after this one's
+            if ((S.pre_fail >> p & 1) && behind) { c.count("pre_action_failures_with_enabled_plugins_behind"); c.count("pre_actions_due_after_a_reported_failure", behind); deep = true; }
+            if ((S.post_fail >> p & 1) && infront) { c.count("post_action_failures_with_enabled_plugins_in_front"); c.count("post_actions_due_after_a_reported_failure", infront); deep = true; }
+            if ((S.pre_fail >> p & 1) && i > 0) c.count("pre_action_failures_not_at_the_head");
+        }
+        if (deep) c.nontrivial("complain|" + g.M_at_test.str(P) + "|" + std::to_string(S.pre_fail) + "|" + std::to_string(S.post_fail) + "|" + std::to_string(S.complaints) + "|" + ending);
+    }
     // where does the (first active) SetPointerPlugin sit
     for (size_t i = 0; i < g.M_at_test.chain.size(); i++) {
         int p = g.M_at_test.chain[i];
@@ -676,7 +734,7 @@ static std::vector<int> allowed_term_kinds() {
 }
 
 // nsets < 0: choose from the distribution
-static Script gen_script(vf::Rng& r, const Program& P, bool spp_active, int nsets, bool small) {
+static Script gen_script(vf::Rng& r, const Program& P, bool spp_active, int nsets, bool small, const Model* M = nullptr) {
     Script s;
     for (int t = 0; t < NT; t++) if (r.chance(50)) s.baseline[t] = (int8_t) r.below(NV);
     if (nsets < 0) {
@@ -712,6 +770,22 @@ static Script gen_script(vf::Rng& r, const Program& P, bool spp_active, int nset
         std::vector<int> cand;
         for (size_t i = 0; i < P.U.size(); i++) if (P.U[i].type != PT_SPP_PLAIN) cand.push_back((int) i);
         if (!cand.empty()) { s.premut_plugin = r.pick(cand); s.premut_target = (int) r.below(NT); s.premut_value = (int) r.below(NV); }
+    }
+    // plugin actions that report a failure for the test (pre, post, both, several plugins); mostly plugins that will really be called
+    if (r.chance(small ? 16 : 9)) {
+        std::vector<int> cand;
+        if (M) for (int p : M->chain) if (M->enabled[p] && logs(P.U[p].type) && p < 32) cand.push_back(p);
+        if (cand.empty() || r.chance(8)) { cand.clear(); for (size_t i = 0; i < P.U.size() && i < 32; i++) if (logs(P.U[i].type)) cand.push_back((int) i); }
+        if (!cand.empty()) {
+            int mode = (int) r.below(5);
+            int a = r.chance(35) ? cand.front() : r.pick(cand);     // towards the head: pre actions are still due behind it
+            int b = r.chance(35) ? cand.back() : r.pick(cand);      // towards the tail: post actions are still due in front of it
+            if (mode == 0 || mode >= 3) s.pre_fail |= 1u << a;
+            if (mode == 1 || mode >= 3) s.post_fail |= 1u << b;
+            if (mode == 2) { s.pre_fail |= 1u << a; s.post_fail |= 1u << a; }
+            if (mode == 4) { s.pre_fail |= 1u << r.pick(cand); s.post_fail |= 1u << r.pick(cand); }
+            s.complaints = r.chance(20) ? 2 : 1;
+        }
     }
     return s;
 }
@@ -797,7 +871,7 @@ static void sec_ptr_programs(vf::Ctx& c) {
             int m = r.range(1, 2);
             for (int i = 0; i < m; i++) { ChainOp o; if (gen_op(r, *P, M, window, o)) { st.ops.push_back(o); M.apply(o); } }
         }
-        st.script = gen_script(r, *P, M.spp_active(*P), -1, false);
+        st.script = gen_script(r, *P, M.spp_active(*P), -1, false, &M);
         P->steps.push_back(st);
     }
     run_program(c, P);
@@ -828,7 +902,7 @@ static void sec_chain_programs(vf::Ctx& c) {
         }
         int m = k == 0 ? r.range(0, 1) : r.range(0, 3);
         for (int i = 0; i < m; i++) { ChainOp o; if (gen_op(r, *P, M, true, o)) { st.ops.push_back(o); M.apply(o); } }
-        st.script = gen_script(r, *P, M.spp_active(*P), -1, true);
+        st.script = gen_script(r, *P, M.spp_active(*P), -1, true, &M);
         P->steps.push_back(st);
     }
     int m = r.range(0, 2);
@@ -878,7 +952,7 @@ static void sec_runner_programs(vf::Rng& r, vf::Ctx& c) {
                     for (int i = 0; i < m; i++) { ChainOp o; if (gen_op(r, *P, M, false, o)) { st.ops.push_back(o); M.apply(o); } }
                 }
             }
-            st.script = gen_script(r, *P, M.spp_active(*P), -1, false);
+            st.script = gen_script(r, *P, M.spp_active(*P), -1, false, &M);
             P->steps.push_back(st);
         }
         ChainOp rem; rem.kind = C_REMOVE; rem.plugin = ri; M.apply(rem);                     // done by the runner
@@ -942,12 +1016,42 @@ static void sec_limit_enum(vf::Ctx& c) {
     run_program(c, P);
 }
 
+// ---------------------------------------------------------------- section: plugin actions that report a failure, enumerated
+// chains of 1..5 recording plugins x every enabled mask x every complaining plugin x {pre, post, pre+post, pre (2 failures) + post of the neighbour}
+// x test ending {pass, FAIL in the body, CHECK_C in setup}; a second, plain test follows in the same run (nothing may be carried over)
+static const int FA_MAXN = 5, FA_MODES = 4, FA_ENDS = 3;
+static uint64_t failing_actions_total() { uint64_t t = 0; for (int n = 1; n <= FA_MAXN; n++) t += (1ull << n) * (uint64_t) n * FA_MODES * FA_ENDS; return t; }
+static void sec_failing_actions_enum(vf::Ctx& c) {
+    uint64_t i = c.idx; int n = 1;
+    for (; n <= FA_MAXN; n++) { uint64_t sz = (1ull << n) * (uint64_t) n * FA_MODES * FA_ENDS; if (i < sz) break; i -= sz; }
+    unsigned mask = (unsigned) (i % (1ull << n)); i /= (1ull << n);
+    int who = (int) (i % (uint64_t) n); i /= (uint64_t) n;
+    int mode = (int) (i % FA_MODES); i /= FA_MODES;
+    int ending = (int) (i % FA_ENDS);
+    auto P = std::make_shared<Program>();
+    static const char* NM[] = { "P0", "P1", "P2", "P3", "P4" };
+    for (int k = 0; k < n; k++) { PluginSpec s; s.name = NM[k]; s.type = PT_REC; P->U.push_back(s); }
+    P->T = 2;
+    Step a, b;
+    for (int k = 0; k < n; k++) { ChainOp o; o.kind = C_INSTALL; o.plugin = k; a.ops.push_back(o); }
+    for (int k = 0; k < n; k++) if (!(mask >> k & 1)) { ChainOp o; o.kind = C_DISABLE; o.plugin = k; a.ops.push_back(o); }
+    if (mode == 0 || mode == 2 || mode == 3) a.script.pre_fail = 1u << who;
+    if (mode == 1 || mode == 2) a.script.post_fail = 1u << who;
+    if (mode == 3) { a.script.post_fail = 1u << ((who + 1) % n); a.script.complaints = 2; }
+    if (ending == 1) { Op o; o.kind = OP_FAIL_CPP; o.target = o.value = 0; a.script.ph[1].push_back(o); }
+    if (ending == 2) { Op o; o.kind = OP_CHECK_C; o.target = o.value = 0; a.script.ph[0].push_back(o); }
+    P->steps.push_back(a); P->steps.push_back(b);
+    P->runs.resize(1);
+    run_program(c, P);
+}
+
 int main(int argc, char** argv) {
     init_pool();
     reset_targets();
     std::vector<vf::Section> S = {
         { "remove_by_name_enumerated", remove_enum_total(), remove_enum_total(), sec_remove_enum, true },
         { "limit_enumerated", limit_enum_total(), limit_enum_total(), sec_limit_enum, true },
+        { "failing_actions_enumerated", failing_actions_total(), failing_actions_total(), sec_failing_actions_enum, true },
         { "pointer_programs", 15000, 200000, sec_ptr_programs, false },
         { "chain_programs", 15000, 200000, sec_chain_programs, false },
         { "command_line_runner_programs", 6000, 80000, sec_runner, false },
